@@ -29,7 +29,7 @@ RULE = ('one foreign .trashinfo per case (absolute / relative Path, percent-esca
         'distinct = (content features, trash-dir kind, home mode)')
 ASSUMPTIONS = ['for a relative Path in the home trash the spec defines no base: only agreement between the commands is required there',
                'trash-rm has no --trash-dir option and is skipped for custom trash directories']
-PROBES = ['trash-dir-on-a-volume-missing-from-the-partition-listing', 'twin-entries', 'path-value-over-4k', 'trash-dir-through-cross-volume-symlink', 'several-trash-dir-options', 'four-way-agree', 'relative-path', 'absolute-path', 'home-own-volume', 'custom-trash-dir', 'duplicate-keys', 'crlf', 'escapes',
+PROBES = ['undecodable-in-this-locale', 'trash-dir-on-a-volume-missing-from-the-partition-listing', 'twin-entries', 'path-value-over-4k', 'trash-dir-through-cross-volume-symlink', 'several-trash-dir-options', 'four-way-agree', 'relative-path', 'absolute-path', 'home-own-volume', 'custom-trash-dir', 'duplicate-keys', 'crlf', 'escapes',
           'non-utf8-escape', 'empty-threshold-checked', 'rm-checked', 'restore-checked', 'undated']
 TECHNIQUE = 'deterministic simulation, four-way differential of the readers on rebuilt worlds plus comparison with an independent spec decoder; TRASH_DATE sweeps the purge threshold'
 LEVEL_TEXT = 'seeded exploration of .trashinfo contents x trash-dir kinds; agreement of list / restore / rm / empty on path and date, and with the spec'
@@ -136,6 +136,9 @@ def gen(rng):
     content, feats = gen_content(rng, loc, top)
     if '/lnk/../' in loc:
         feats.append('dotdot-after-symlink-in-Path')
+    if rng.random() < 0.1:
+        content = content.replace('[Trash Info]', '[Trash Info]\nX-Comment=ge\u00e4ndert \u65e5', 1) if content.startswith('[Trash Info]') else content + 'X-Comment=\u00e9\n'
+        feats.append('non-ascii-comment-key')
     if longpath:
         feats.append('path-value-over-4k')
     G.add_trashed(steps, tdir, 'fe', None, None, rng.choice(['file', 'dir']), info_content=content, tag='f')
@@ -157,6 +160,9 @@ def gen(rng):
         'dirsalt': rng.randrange(1 << 30),
         'note': {'tdir': tdir, 'custom': bool(custom), 'feats': feats, 'home_mode': hm, 'other_td': other_td, 'twin': twin},
         'clock': TG.dst_clock(rng) if rng.random() < 0.5 else {},
+        # (6 %: the commands run under a locale whose encoding is plain ASCII while the file holds a non-ASCII byte - a comment
+        # key written by another tool: whether the file can be read at all is the same for every command)
+        'locale': ('ascii' if rng.random() < 0.06 else None),
     }
 
 
@@ -173,6 +179,7 @@ def check(sim, case, st):
     td_multi = (['--trash-dir', note['other_td']] if note.get('other_td') else []) + td     # list and empty accept several
     if note.get('other_td'):
         st.probes['several-trash-dir-options'] += 1
+    LOC = {'locale_encoding': case['locale']} if case.get('locale') else {}
     sim.setup(case)
     snap0 = sim.snap()
     ip = tdir + '/info/fe.trashinfo'
@@ -221,13 +228,33 @@ def check(sim, case, st):
         res.append(('C20/%s/%s' % (clause, sigctx), '%s\n.trashinfo (%s): %r' % (msg, ip, content)))
 
     # 1. trash-list
-    rl = sim.run({'argv': ['trash-list'] + td_multi, 'env': env, 'cwd': '/', 'uid': uid})
+    rl = sim.run(dict({'argv': ['trash-list'] + td_multi, 'env': env, 'cwd': '/', 'uid': uid}, **LOC))
     st.sims += 1
     if rl.exc is not None:
         bad('list-traceback:%s' % rl.exc_frame, 'trash-list raised %s' % rl.exc)
         return res
     # our line: the one that is not the neighbour's
     lines = [ln for ln in OR.phys_lines(rl.outs) if not ln.endswith('/neighbour')]
+    if not lines and LOC and not all(b < 128 for b in content):
+        # the file cannot be decoded in this locale: then it cannot for ANY of the commands - restore offers nothing, rm removes nothing
+        st.probes['undecodable-in-this-locale'] += 1
+        sim.setup(case)
+        holder = {}
+
+        def user0(out):
+            holder['items'] = [(i, d, p) for i, d, p in (OR.parse_restore_items(out) or []) if not p.endswith('/neighbour')]
+            return '\n'
+        sim.run(dict({'argv': ['trash-restore', '/'] + td, 'env': env, 'cwd': '/', 'uid': uid}, **LOC), stdin_fn=user0)
+        st.sims += 1
+        if holder.get('items'):
+            bad('list-vs-restore-readable', 'under the locale encoding %r trash-list cannot read the file (stderr %r) but trash-restore offers %r'
+                % (case['locale'], rl.errs[:200], holder['items']))
+        sim.setup(case)
+        rm0 = sim.run(dict({'argv': ['trash-rm', '*'], 'env': env, 'cwd': '/', 'uid': uid}, **LOC))
+        st.sims += 1
+        if rip not in sim.snap():
+            bad('list-vs-rm-readable', 'under the locale encoding %r trash-list cannot read the file but trash-rm * removes it' % (case['locale'],))
+        return res
     if note.get('twin'):
         st.probes['twin-entries'] += 1
         if len(lines) != 2 or lines[0] != lines[1]:
@@ -248,7 +275,7 @@ def check(sim, case, st):
         holder['items'] = items
         return ('%d\n' % items[0][0]) if items else '\n'
     before = sim.snap()
-    rr = sim.run({'argv': ['trash-restore', '/'] + td, 'env': env, 'cwd': '/', 'uid': uid}, stdin_fn=user)
+    rr = sim.run(dict({'argv': ['trash-restore', '/'] + td, 'env': env, 'cwd': '/', 'uid': uid}, **LOC), stdin_fn=user)
     st.sims += 1
     after = sim.snap()
     if rr.exc is not None and not holder.get('items'):
@@ -297,7 +324,7 @@ def check(sim, case, st):
     if not custom:
         sim.setup(case)
         b2 = sim.snap()
-        rm = sim.run({'argv': ['trash-rm', glob_literal(p_list)], 'env': env, 'cwd': '/', 'uid': uid})
+        rm = sim.run(dict({'argv': ['trash-rm', glob_literal(p_list)], 'env': env, 'cwd': '/', 'uid': uid}, **LOC))
         st.sims += 1
         a2 = sim.snap()
         st.probes['rm-checked'] += 1
@@ -318,7 +345,7 @@ def check(sim, case, st):
             for now in (at, after1):
                 sim.setup(case)
                 e = dict(env, TRASH_DATE=TG.iso(now))
-                re_ = sim.run({'argv': ['trash-empty'] + td_multi + [str(D)], 'env': e, 'cwd': '/', 'uid': uid})
+                re_ = sim.run(dict({'argv': ['trash-empty'] + td_multi + [str(D)], 'env': e, 'cwd': '/', 'uid': uid}, **LOC))
                 st.sims += 1
                 s3 = sim.snap()
                 outcomes.append((rip not in s3, re_.exc))
